@@ -137,7 +137,46 @@ def run(chk):
     chk.decide(reads <= allowed, "shortcut-independent-of-irrelevant-settings", fcomp.qname,
                f"the identity path reads settings {sorted(reads - allowed)} that must not influence it", where=fcomp.where,
                detail=f"settings read on the identity path: {sorted(reads)}")
+    _second_request_in_one_process(chk, src)
     chk.floor("configurations", len(cases), 24)
     chk.note(instances=len(cases) * 12, files=["src/eko/evolution_operator/__init__.py", "src/eko/evolution_operator/physical.py",
                                                "src/eko/member.py", "src/eko/evolution_operator/flavors.py"])
     chk.explanation = "Identity shortcut: truth table and exact identity tensor for every order/nf/scale-variation configuration."
+
+
+def _second_request_in_one_process(chk, src):
+    """The identity shortcut is taken for a part whose end points coincide; for a target equal to the initial point the recipes must
+    therefore consist of exactly one such part - also when the same process handled another initial flavour number on the same
+    scale before (an initial point on a matching scale may be given with either flavour number).  Evaluated with ONE evaluator, so
+    module-level state of the runner persists between the requests."""
+    from ..pe import Opaque
+
+    pe = PE(src)
+    fat = src.func("eko.runner.commons.atlas")
+    pe.overrides["eko.io.runcards.masses"] = lambda p_, a, k: [Fraction(10), Fraction(20), Fraction(30)]
+    thc = Opaque()
+    thc.heavy = Opaque()
+    thc.heavy.matching_ratios = [Fraction(1), Fraction(1), Fraction(1)]
+    n = 0
+    for i, (mu20, nf0) in enumerate([(Fraction(10), 3), (Fraction(10), 4), (Fraction(10), 3), (Fraction(20), 5), (Fraction(20), 4)]):
+        opc = Opaque()
+        opc._real = "eko.io.runcards.OperatorCard"
+        opc.mu20 = mu20
+        opc.init = (dag.sym("mu0"), nf0)
+        opc.configs = Opaque()
+        opc.configs.evolution_method = "EVMETH"
+        inst = f"request {i + 1} of one process: initial point = target = ({mu20}, nf={nf0})"
+        try:
+            atlas = pe.call(fat.qname, [thc, opc])
+            recs = pe.call("eko.runner.recipes._elements", [(mu20, nf0), atlas])
+            shape = [(r.cls.node.name, str(pe.getattr(r, "origin")) if r.cls.node.name == "Evolution" else str(pe.getattr(r, "scale")),
+                      str(pe.getattr(r, "target")) if r.cls.node.name == "Evolution" else "", pe.getattr(r, "nf") if r.cls.node.name == "Evolution" else pe.getattr(r, "hq"))
+                     for r in recs]
+        except PERaise as e:
+            shape = [("raises", str(e), "", 0)]
+        n += 1
+        chk.decide(shape == [("Evolution", str(mu20), str(mu20), nf0)], "identity-operator-in-flavour-basis", fat.qname,
+                   f"{inst}: the parts to compute are {shape}; required the single empty part ({mu20} -> {mu20}, nf={nf0}) - anything else (a matching "
+                   f"taken over from an earlier request with another initial flavour number) makes the operator for target = initial point differ "
+                   f"from the identity", where=fat.where, instance=inst, how="PE of commons.atlas + recipes._elements, one evaluator for all requests")
+    chk.floor("requests in one process", n, 5)
